@@ -3,8 +3,8 @@
 // does not terminate on one hashbrown insert), everything else — RefSka::kmer_iter, ndarray, the zip — is the real code.
 //   weed_set_is_the_listed_kmers   the set of weed k-mers == the k-mers listed by the RefSka, for every list of <= 3
 //                                  k-mers with arbitrary u64 values (BOUNDED by the list length)
-//   bounded_weed_whole_2x2         the whole body on a 2 x 2 table and <= 2 weed k-mers: exactly the rows whose k-mer
-//                                  is (not, with reverse) listed survive, in order, with all their bases and counts;
+//   bounded_weed_whole_1x2         the whole body on a 1 x 2 table and one weed k-mer: the row survives iff its k-mer
+//                                  is (not, with reverse) the listed one, with all its bases and its count;
 //                                  names, k, strand mode untouched (BOUNDED)
 // Serves C13.
 use super::*;
@@ -116,25 +116,25 @@ fn weed_set_is_the_listed_kmers() {
     kani::cover!(l.len() == 0);
 }
 
+// the whole body on ONE row (the smallest table; two rows exhaust CBMC's memory in ndarray's push_row): the row
+// survives iff its k-mer is (not, with reverse) the listed one, with its bases and count; names, k, strand mode untouched
 #[kani::proof]
 #[kani::unwind(6)]
-fn bounded_weed_whole_2x2() {
-    let l = any_kmers(2);
+fn bounded_weed_whole_1x2() {
+    let w: u64 = kani::any();
+    let l = vec![w];
     let r = refska_with_kmers::<u64>(31, &l);
-    let cells: [[u8; 2]; 2] = kani::any();
+    let cells: [[u8; 2]; 1] = kani::any();
     let k0: u64 = kani::any();
-    let k1: u64 = kani::any();
-    kani::assume(k0 != k1);
     let c0: usize = kani::any();
-    let c1: usize = kani::any();
     let reverse: bool = kani::any();
     let mut arr = MergeSkaArray::<u64> {
         k: 31,
         rc: kani::any(),
         names: vec![String::new(), String::new()],
-        split_kmers: vec![k0, k1],
+        split_kmers: vec![k0],
         variants: arr2(&cells),
-        variant_count: vec![c0, c1],
+        variant_count: vec![c0],
         ska_version: String::new(),
         k_bits: 64,
     };
@@ -142,23 +142,16 @@ fn bounded_weed_whole_2x2() {
 
     weed_whole(&mut arr, &r, reverse);
 
-    let keep0 = listed(&l, k0) == reverse;
-    let keep1 = listed(&l, k1) == reverse;
-    let n = keep0 as usize + keep1 as usize;
+    let keep0 = (k0 == w) == reverse;
+    let n = keep0 as usize;
     assert!(arr.split_kmers.len() == n && arr.variant_count.len() == n);
     assert!(arr.variants.nrows() == n && arr.variants.ncols() == 2);
     assert!(arr.names.len() == 2 && arr.k == 31 && arr.rc == rc0);
-    let mut at = 0;
     if keep0 {
-        assert!(arr.split_kmers[at] == k0 && arr.variant_count[at] == c0);
-        assert!(arr.variants[[at, 0]] == cells[0][0] && arr.variants[[at, 1]] == cells[0][1]);
-        at += 1;
+        assert!(arr.split_kmers[0] == k0 && arr.variant_count[0] == c0);
+        assert!(arr.variants[[0, 0]] == cells[0][0] && arr.variants[[0, 1]] == cells[0][1]);
     }
-    if keep1 {
-        assert!(arr.split_kmers[at] == k1 && arr.variant_count[at] == c1);
-        assert!(arr.variants[[at, 0]] == cells[1][0] && arr.variants[[at, 1]] == cells[1][1]);
-    }
-    kani::cover!(n == 0);
-    kani::cover!(n == 1 && keep1 && reverse);
-    kani::cover!(n == 2 && !reverse && l.len() == 2);
+    kani::cover!(n == 0 && reverse);
+    kani::cover!(n == 1 && reverse);
+    kani::cover!(n == 1 && !reverse);
 }
